@@ -249,12 +249,26 @@ def part_version_files(rec, shard, nshards):
              r.choice([None, "", "rc1", "rc.1", "rc", "alpha", "beta2", "dev", "RC1", "rc-1", "99"]))
         tuples.add(t)
     rows = []
-    for maj, mi, pa, tw, extra in tuples:
+    scfw_rows = []
+    tl = sorted(tuples, key=repr)
+    for ti, (maj, mi, pa, tw, extra) in enumerate(tl):
         content = f"VERSION_MAJOR = {maj}\nVERSION_MINOR = {mi}\nPATCHLEVEL = {pa}\n"
         if tw is not None:
             content += f"VERSION_TWEAK = {tw}\n"
         if extra is not None:
             content += f"EXTRAVERSION = {extra}\n"
+        # every second file also carries the system-controller quadruple (the same glue derives SCFW_SEQ_NUM and
+        # SCFW_VERSION from it); it is taken from ANOTHER tuple so that cross-talk between the two derivations shows
+        scfw = None
+        if ti % 2:
+            smaj, smi, spa, stw, sextra = tl[(ti * 7 + 3) % len(tl)]
+            scfw = (smaj, smi, spa, stw or 0)
+            block = f"SYSCTRL_VERSION_MAJOR = {smaj}\nSYSCTRL_VERSION_MINOR = {smi}\nSYSCTRL_VERSION_PATCH = {spa}\n"
+            if stw is not None:
+                block += f"SYSCTRL_VERSION_TWEAK = {stw}\n"
+            if sextra is not None:
+                block += f"SYSCTRL_VERSION_EXTRA = {sextra}\n"
+            content = block + content if ti % 4 == 1 else content + block
         case = {"kind": "version-file", "content": content}
         try:
             vals = version_file_values(rec, content)
@@ -271,6 +285,15 @@ def part_version_files(rec, shard, nshards):
             rec.violation("default-version-not-accepted",
                           f"DEFAULT_VERSION {ver!r} is refused by the manifest encoder: {common.exc_text(e)}", case)
         rows.append(((maj, mi, pa, tw or 0), seq, content, ver))
+        if scfw is not None:
+            rec.count("version-files-with-sysctrl-quadruple")
+            try:
+                sseq, sver = int(vals["SCFW_SEQ_NUM"]), vals.get("SCFW_VERSION")
+                convert(sver)
+                scfw_rows.append((scfw, sseq, content, sver))
+            except Exception as e:  # noqa
+                rec.violation("default-version-not-accepted", f"SCFW_VERSION / SCFW_SEQ_NUM derived from the file are "
+                              f"not usable: {common.exc_text(e)}", case)
     rows.sort(key=lambda x: x[0])
     for (ta, sa, ca, _), (tb, sb, cb, _) in zip(rows, rows[1:]):
         rec.case(f"{ta}|{tb}", True)
@@ -278,6 +301,13 @@ def part_version_files(rec, shard, nshards):
         if (ta < tb and not sa < sb) or (ta == tb and sa != sb):
             rec.violation("default-seq-num-not-monotone",
                           f"{ta} -> {sa} but {tb} -> {sb}", {"kind": "version-pair", "a": ca, "b": cb})
+    scfw_rows.sort(key=lambda x: x[0])
+    for (ta, sa, ca, _), (tb, sb, cb, _) in zip(scfw_rows, scfw_rows[1:]):
+        rec.case(f"scfw/{ta}|{tb}", True)
+        rec.count("version-file-pairs-sysctrl")
+        if (ta < tb and not sa < sb) or (ta == tb and sa != sb):
+            rec.violation("default-seq-num-not-monotone", f"SCFW_SEQ_NUM: {ta} -> {sa} but {tb} -> {sb}",
+                          {"kind": "version-pair", "a": ca, "b": cb, "field": "SCFW"})
     if rows and len(rec.samples) < 2:
         rec.samples.append({"kind": "version-file", "content": rows[0][2], "DEFAULT_SEQ_NUM": rows[0][1],
                             "DEFAULT_VERSION": rows[0][3]})
@@ -326,6 +356,13 @@ def replay(rec, case):
             return (int(d["VERSION_MAJOR"]), int(d["VERSION_MINOR"]), int(d["PATCHLEVEL"]), int(d.get("VERSION_TWEAK", 0)))
         ta, tb = tup(case["a"]), tup(case["b"])
         sa, sb = int(va["DEFAULT_SEQ_NUM"]), int(vb["DEFAULT_SEQ_NUM"])
+        if case.get("field") == "SCFW":
+            def stup(c):
+                d = dict(line.split(" = ") for line in c.strip().splitlines())
+                return (int(d["SYSCTRL_VERSION_MAJOR"]), int(d["SYSCTRL_VERSION_MINOR"]),
+                        int(d["SYSCTRL_VERSION_PATCH"]), int(d.get("SYSCTRL_VERSION_TWEAK", 0)))
+            ta, tb = stup(case["a"]), stup(case["b"])
+            sa, sb = int(va["SCFW_SEQ_NUM"]), int(vb["SCFW_SEQ_NUM"])
         if (ta < tb and not sa < sb) or (ta == tb and sa != sb):
             rec.violation("default-seq-num-not-monotone", f"{ta} -> {sa} but {tb} -> {sb}", case)
     elif k == "version-file":
